@@ -88,18 +88,45 @@ func ParseIP(s string) netip.Addr {
 	panic("bad ip token " + s)
 }
 
-func nameStr(id string) string {
-	if id == "0" {
+// A learned NameEntry is written as the decimal Name + 10*Model + 100*OS + 1000*Manufacturer, each attribute a
+// digit (0 = empty string, d = "<prefix><d>"): all four attributes NameEntry.Merge compares are driven and observed.
+var attrPrefix = [4]string{"n", "m", "o", "f"} // Name, Model, OS, Manufacturer
+
+func attrStr(i, d int) string {
+	if d == 0 {
 		return ""
 	}
-	return "n" + id
+	return attrPrefix[i] + strconv.Itoa(d)
 }
 
-func nameID(s string) string {
-	if s == "" {
-		return "0"
+// EntryOf builds the NameEntry of a name token.
+func EntryOf(tok string, typ string) packet.NameEntry {
+	n, err := strconv.Atoi(tok)
+	if err != nil || n < 0 || n > 9999 {
+		panic("bad name token " + tok)
 	}
-	return strings.TrimPrefix(s, "n")
+	return packet.NameEntry{Type: typ, Name: attrStr(0, n%10), Model: attrStr(1, n/10%10), OS: attrStr(2, n/100%10),
+		Manufacturer: attrStr(3, n/1000%10)}
+}
+
+// EntryID prints a NameEntry as its token; an attribute that is not one of ours is shown raw.
+func EntryID(e packet.NameEntry) string {
+	n, mul := 0, 1
+	for i, s := range [4]string{e.Name, e.Model, e.OS, e.Manufacturer} {
+		if s != "" {
+			d, err := strconv.Atoi(strings.TrimPrefix(s, attrPrefix[i]))
+			if err != nil || d < 1 || d > 9 || !strings.HasPrefix(s, attrPrefix[i]) {
+				return "?" + e.Name + "|" + e.Model + "|" + e.OS + "|" + e.Manufacturer
+			}
+			n += d * mul
+		}
+		mul *= 10
+	}
+	return strconv.Itoa(n)
+}
+
+func fiveNames(a, b, c, d, e packet.NameEntry) string {
+	return EntryID(a) + "." + EntryID(b) + "." + EntryID(c) + "." + EntryID(d) + "." + EntryID(e)
 }
 
 func b01(b bool) string {
@@ -415,8 +442,7 @@ func (sm *Sim) Drain() []packet.Notification {
 
 func ShowNotif(n packet.Notification) string {
 	return IPTok(n.Addr.IP) + "/" + MacTok(n.Addr.MAC) + "/" + b01(n.Online) + b01(n.IsRouter) + "/" +
-		nameID(n.DHCP4Name.Name) + "." + nameID(n.MDNSName.Name) + "." + nameID(n.SSDPName.Name) + "." +
-		nameID(n.LLMNRName.Name) + "." + nameID(n.NBNSName.Name)
+		fiveNames(n.DHCP4Name, n.MDNSName, n.SSDPName, n.LLMNRName, n.NBNSName)
 }
 
 // Apply runs one op token on the real session and returns the step's output.
@@ -478,7 +504,7 @@ func (sm *Sim) Apply(tok string) (out string) {
 		return "ok"
 	case "U":
 		sm.vnow = atoi(f[4])
-		err := sm.S.DHCPv4Update(sm.macArg(f[1]), ParseIP(f[2]), packet.NameEntry{Type: "dhcp4", Name: nameStr(f[3])})
+		err := sm.S.DHCPv4Update(sm.macArg(f[1]), ParseIP(f[2]), EntryOf(f[3], "dhcp4"))
 		sm.argDone()
 		sm.settle()
 		if err == packet.ErrInvalidIP {
@@ -488,7 +514,7 @@ func (sm *Sim) Apply(tok string) (out string) {
 		}
 		return "ok"
 	case "O":
-		sm.S.SetDHCPv4IPOffer(sm.macArg(f[1]), ParseIP(f[2]), packet.NameEntry{Type: "dhcp4", Name: nameStr(f[3])})
+		sm.S.SetDHCPv4IPOffer(sm.macArg(f[1]), ParseIP(f[2]), EntryOf(f[3], "dhcp4"))
 		sm.argDone()
 		sm.settle()
 		return "ok"
@@ -519,7 +545,7 @@ func (sm *Sim) Apply(tok string) (out string) {
 		return "ok"
 	case "M":
 		if h := sm.S.FindIP(ParseIP(f[2])); h != nil {
-			ne := packet.NameEntry{Type: "t", Name: nameStr(f[3])}
+			ne := EntryOf(f[3], "t")
 			switch f[1] {
 			case "0":
 				h.UpdateDHCP4Name(ne)
@@ -551,13 +577,11 @@ func (sm *Sim) Apply(tok string) (out string) {
 func vsec(t time.Time) string { return strconv.FormatInt(t.Unix()-T0.Unix(), 10) }
 
 func hostNames(h *packet.Host) string {
-	return nameID(h.DHCP4Name.Name) + "." + nameID(h.MDNSName.Name) + "." + nameID(h.SSDPName.Name) + "." +
-		nameID(h.LLMNRName.Name) + "." + nameID(h.NBNSName.Name)
+	return fiveNames(h.DHCP4Name, h.MDNSName, h.SSDPName, h.LLMNRName, h.NBNSName)
 }
 
 func macNames(e *packet.MACEntry) string {
-	return nameID(e.DHCP4Name.Name) + "." + nameID(e.MDNSName.Name) + "." + nameID(e.SSDPName.Name) + "." +
-		nameID(e.LLMNRName.Name) + "." + nameID(e.NBNSName.Name)
+	return fiveNames(e.DHCP4Name, e.MDNSName, e.SSDPName, e.LLMNRName, e.NBNSName)
 }
 
 func sortedKeys(t map[netip.Addr]*packet.Host) []netip.Addr {
@@ -816,7 +840,6 @@ type Universe struct {
 	MACs  []net.HardwareAddr
 	IP4s  []netip.Addr
 	IP6s  []netip.Addr
-	Names []string
 }
 
 func StdUniverse() Universe {
@@ -830,7 +853,6 @@ func StdUniverse() Universe {
 		IP6s: []netip.Addr{netip.MustParseAddr("fe80::1"), netip.MustParseAddr("fe80::2"), netip.MustParseAddr("2001:db8::1"),
 			netip.MustParseAddr("2001:db8::2"), netip.MustParseAddr("ff02::1"), netip.MustParseAddr("::"),
 			netip.MustParseAddr("::ffff:192.168.0.1")},
-		Names: []string{"0", "1", "2"},
 	}
 }
 
@@ -841,9 +863,48 @@ type Gen struct {
 	Discipline bool // C06: Notify after every Rx
 	ExplicitDrain bool // append an explicit D op after every step
 	now        int64
+	lastName   string
 }
 
 var timeSteps = []int64{0, 0, 1, 1, 10, 60, 100, 200, 299, 300, 301, 400, 3000, 3659, 3660, 3661, 4000}
+
+// name draws a name token over all four attributes (each empty / 1 / 2): the empty entry, a Name only, one other
+// attribute only, or any combination; every third draw repeats the previous token (an identical announcement).
+func (g *Gen) name() string {
+	if g.lastName != "" && g.Rng.Chance(33) {
+		return g.lastName
+	}
+	n := 0
+	r := g.Rng.Intn(100)
+	switch {
+	case r < 10:
+	case r < 30:
+		n = 1 + g.Rng.Intn(2)
+	case r < 45:
+		n = (1 + g.Rng.Intn(2)) * []int{10, 100, 1000}[g.Rng.Intn(3)]
+	default:
+		n = g.Rng.Intn(3) + 10*g.Rng.Intn(3) + 100*g.Rng.Intn(3) + 1000*g.Rng.Intn(3)
+	}
+	g.lastName = strconv.Itoa(n)
+	return g.lastName
+}
+
+// nameOps: one announcement through Update*Name, with probability 1/2 repeated identically once or twice
+// (the repeats must be quiet), sometimes through a second source as well.
+func (g *Gen) nameOps(ip netip.Addr) []string {
+	kd := g.Rng.Intn(5)
+	op := fmt.Sprintf("M,%d,%s,%s", kd, IPTok(ip), g.name())
+	ops := []string{op}
+	if g.Rng.Chance(50) {
+		for i := 0; i <= g.Rng.Intn(2); i++ {
+			ops = append(ops, op)
+		}
+	}
+	if g.Rng.Chance(15) {
+		ops = append(ops, fmt.Sprintf("M,%d,%s,%s", (kd+1+g.Rng.Intn(4))%5, IPTok(ip), g.lastName))
+	}
+	return ops
+}
 
 func (g *Gen) clientMAC() net.HardwareAddr {
 	// clients dominate; own, router and multicast MACs appear regularly
@@ -948,9 +1009,9 @@ func (g *Gen) History(n int) []string {
 			if g.Rng.Chance(50) {
 				ip = g.ip4For(m)
 			}
-			ops = append(ops, fmt.Sprintf("U,%s,%s,%s,%d", MacTok(m), IPTok(ip), g.U.Names[g.Rng.Intn(len(g.U.Names))], g.advance()))
+			ops = append(ops, fmt.Sprintf("U,%s,%s,%s,%d", MacTok(m), IPTok(ip), g.name(), g.advance()))
 		case r < 66:
-			ops = append(ops, fmt.Sprintf("O,%s,%s,%s", MacTok(g.clientMAC()), IPTok(g.anyIP()), g.U.Names[g.Rng.Intn(len(g.U.Names))]))
+			ops = append(ops, fmt.Sprintf("O,%s,%s,%s", MacTok(g.clientMAC()), IPTok(g.anyIP()), g.name()))
 		case r < 70:
 			ops = append(ops, "C,"+MacTok(g.clientMAC()))
 		case r < 73:
@@ -958,7 +1019,7 @@ func (g *Gen) History(n int) []string {
 		case r < 90:
 			ops = append(ops, fmt.Sprintf("P,%d", g.advance()))
 		default:
-			ops = append(ops, fmt.Sprintf("M,%d,%s,%s", g.Rng.Intn(5), IPTok(g.anyIP()), g.U.Names[g.Rng.Intn(len(g.U.Names))]))
+			ops = append(ops, g.nameOps(g.anyIP())...)
 		}
 		if g.Discipline && g.ExplicitDrain {
 			ops = append(ops, "D")
@@ -981,13 +1042,13 @@ func (g *Gen) PureHistory(n int) []string {
 			ops = append(ops, RxTok(g.clientMAC(), "4", g.U.IP4s[6], nil, 3, g.advance()), "N")
 		case r < 90:
 			ops = append(ops, fmt.Sprintf("P,%d", g.advance()))
-		case r < 94: // a learned name through one of the five Update*Name methods
-			ops = append(ops, fmt.Sprintf("M,%d,%s,%s", g.Rng.Intn(5), IPTok(g.anyIP()), g.U.Names[g.Rng.Intn(len(g.U.Names))]))
+		case r < 94: // a learned name through one of the five Update*Name methods (with identical repeats)
+			ops = append(ops, g.nameOps(g.anyIP())...)
 		case r < 96: // DHCP: the server records an offer, the client's request is acknowledged
-			ops = append(ops, fmt.Sprintf("O,%s,%s,%s", MacTok(g.clientMAC()), IPTok(g.anyIP()), g.U.Names[g.Rng.Intn(len(g.U.Names))]))
+			ops = append(ops, fmt.Sprintf("O,%s,%s,%s", MacTok(g.clientMAC()), IPTok(g.anyIP()), g.name()))
 		case r < 98:
 			m := g.clientMAC()
-			ops = append(ops, fmt.Sprintf("U,%s,%s,%s,%d", MacTok(m), IPTok(g.ip4For(m)), g.U.Names[g.Rng.Intn(len(g.U.Names))], g.advance()))
+			ops = append(ops, fmt.Sprintf("U,%s,%s,%s,%d", MacTok(m), IPTok(g.ip4For(m)), g.name(), g.advance()))
 		case r < 99:
 			ops = append(ops, "C,"+MacTok(g.clientMAC()))
 		default:
@@ -1040,13 +1101,13 @@ func Exhaustive(u Universe, depth int, discipline bool, f func(ops []string)) {
 		rx(c1, "6", u.IP6s[0], nil, 0), rx(rt, "6", u.IP6s[2], nil, 2), rx(c1, "4", u.IP4s[6], nil, 3),
 		rx(c2, "4", ipB, nil, 0), rx(c1, "4", ipC, nil, 0),
 		rx(c1, "a", ipC, u.MACs[0], 1), rx(u.MACs[0], "a", ipC, c1, 1), // exactly one of Ethernet source / ARP sender is our own MAC
-		func(now *int64) []string { *now++; return []string{fmt.Sprintf("U,%s,%s,2,%d", MacTok(c2), IPTok(ipA), *now)} },
-		func(now *int64) []string { *now++; return []string{fmt.Sprintf("U,%s,%s,1,%d", MacTok(c1), IPTok(ipB), *now)} },
+		func(now *int64) []string { *now++; return []string{fmt.Sprintf("U,%s,%s,1202,%d", MacTok(c2), IPTok(ipA), *now)} },
+		func(now *int64) []string { *now++; return []string{fmt.Sprintf("U,%s,%s,2011,%d", MacTok(c1), IPTok(ipB), *now)} },
 		func(now *int64) []string { *now += 301; return []string{fmt.Sprintf("P,%d", *now)} },
 		func(now *int64) []string { *now += 3661; return []string{fmt.Sprintf("P,%d", *now)} },
 		func(now *int64) []string { return []string{"C," + MacTok(c1)} },
-		func(now *int64) []string { return []string{"O," + MacTok(c1) + "," + IPTok(ipC) + ",2"} },
-		func(now *int64) []string { return []string{"M,1," + IPTok(ipA) + ",2"} },
+		func(now *int64) []string { return []string{"O," + MacTok(c1) + "," + IPTok(ipC) + ",1022"} },
+		func(now *int64) []string { return []string{"M,1," + IPTok(ipA) + ",1102"} },
 	}
 	if !discipline {
 		alphabet = append(alphabet, func(now *int64) []string { return []string{"N"} })
@@ -1122,13 +1183,13 @@ func (g *Gen) ConflictHistory(n int) []string {
 		case r < 64:
 			frame(RxTok(m, "6", lla[g.Rng.Intn(len(lla))], nil, g.Rng.Pick(0, 2), step()))
 		case r < 76:
-			ops = append(ops, fmt.Sprintf("U,%s,%s,%s,%d", MacTok(m), IPTok(ip4[g.Rng.Intn(len(ip4))]), u.Names[g.Rng.Intn(len(u.Names))], step()))
+			ops = append(ops, fmt.Sprintf("U,%s,%s,%s,%d", MacTok(m), IPTok(ip4[g.Rng.Intn(len(ip4))]), g.name(), step()))
 		case r < 80:
-			ops = append(ops, fmt.Sprintf("O,%s,%s,%s", MacTok(m), IPTok(ip4[g.Rng.Intn(len(ip4))]), u.Names[g.Rng.Intn(len(u.Names))]))
+			ops = append(ops, fmt.Sprintf("O,%s,%s,%s", MacTok(m), IPTok(ip4[g.Rng.Intn(len(ip4))]), g.name()))
 		case r < 84:
 			frame(RxTok(m, "4", u.IP4s[6], nil, 3, step())) // DHCP frame without host
 		case r < 88:
-			ops = append(ops, fmt.Sprintf("M,%d,%s,%s", g.Rng.Intn(5), IPTok(ip4[g.Rng.Intn(len(ip4))]), u.Names[g.Rng.Intn(len(u.Names))]))
+			ops = append(ops, fmt.Sprintf("M,%d,%s,%s", g.Rng.Intn(5), IPTok(ip4[g.Rng.Intn(len(ip4))]), g.name()))
 		case r < 95:
 			g.now += int64(g.Rng.Pick(290, 301, 301, 400))
 			ops = append(ops, fmt.Sprintf("P,%d", g.now))
@@ -1156,7 +1217,7 @@ func (g *Gen) OfferDeletionHistory() []string {
 		cls = "6"
 	}
 	var ops []string
-	offer := fmt.Sprintf("O,%s,%s,%s", MacTok(m1), IPTok(y), u.Names[g.Rng.Intn(len(u.Names))])
+	offer := fmt.Sprintf("O,%s,%s,%s", MacTok(m1), IPTok(y), g.name())
 	if g.Rng.Chance(50) {
 		ops = append(ops, offer, RxTok(m1, cls, x, nil, 0, t(1)), "N")
 	} else {
@@ -1332,7 +1393,7 @@ func (g *Gen) DHCPExchangeHistory() []string {
 	ip4 := []netip.Addr{u.IP4s[2], u.IP4s[3], u.IP4s[4]}
 	x := ip4[g.Rng.Intn(3)]
 	t := func(d int64) int64 { g.now += d; return g.now }
-	name := func() string { return u.Names[g.Rng.Intn(len(u.Names))] }
+	name := g.name
 	dhcpFrame := func() []string { return []string{RxTok(m, "4", u.IP4s[6], nil, 3, t(1)), "N"} }
 	hostFrame := func(ip netip.Addr) []string { return []string{RxTok(m, "4", ip, nil, g.Rng.Pick(0, 1, 2), t(1)), "N"} }
 	var ops []string
@@ -1408,4 +1469,93 @@ func indexOfMAC(l []net.HardwareAddr, m net.HardwareAddr) int {
 		}
 	}
 	return 0
+}
+
+// NameRepeatHistory: the learned-name class. A client is online and announced on an address (IPv4 or IPv6
+// link-local); entries over all four attributes (Name, Model, OS, Manufacturer; each empty / 1 / 2) are announced
+// through the five Update*Name sources and through DHCPv4Update / SetDHCPv4IPOffer. Each announcement is followed
+// by any of: the identical entry again (1-2 times, before and after the notification is delivered), a frame from
+// the address (delivers what is owed; quiet afterwards), the DHCP path, a purge to offline and a return.
+// The next entry differs from the previous one in one to three attributes (some of them only by being empty,
+// which teaches nothing). Expectation: one notification per real change of the learned names, none on a repeat.
+func (g *Gen) NameRepeatHistory() []string {
+	g.now = 0
+	u := g.U
+	m := u.MACs[2+g.Rng.Intn(3)]
+	other := u.MACs[2+(g.Rng.Intn(2)+1+indexOfMAC(u.MACs, m)-2)%3]
+	x := u.IP4s[2+g.Rng.Intn(3)]
+	class := "4"
+	if g.Rng.Chance(25) {
+		x, class = u.IP6s[g.Rng.Intn(2)], "6"
+	}
+	t := func(d int64) int64 { g.now += d; return g.now }
+	frame := func() []string { return []string{RxTok(m, class, x, nil, g.Rng.Pick(0, 1, 2), t(1)), "N"} }
+	dhcpFrame := func() []string { return []string{RxTok(m, "4", u.IP4s[6], nil, 3, t(1)), "N"} }
+	ent := [4]int{}
+	tok := func() string { return strconv.Itoa(ent[0] + 10*ent[1] + 100*ent[2] + 1000*ent[3]) }
+	mutate := func() {
+		for i := 0; i <= g.Rng.Intn(3); i++ {
+			ent[g.Rng.Intn(4)] = g.Rng.Intn(3)
+		}
+	}
+	for i := range ent {
+		ent[i] = g.Rng.Intn(3)
+	}
+	if ent == [4]int{} || g.Rng.Chance(40) {
+		ent[0], ent[3] = 1+g.Rng.Intn(2), 1+g.Rng.Intn(2) // Name and Manufacturer (first and last attribute merged) together
+	}
+	ops := frame()
+	for round := 0; round < 2+g.Rng.Intn(3); round++ {
+		src := g.Rng.Intn(7) // 0..4 Update*Name, 5 DHCPv4Update, 6 SetDHCPv4IPOffer then DHCPv4Update
+		if class == "6" && src > 4 {
+			src = g.Rng.Intn(5)
+		}
+		announce := func() []string {
+			switch {
+			case src < 5:
+				return []string{fmt.Sprintf("M,%d,%s,%s", src, IPTok(x), tok())}
+			case src == 5:
+				return []string{fmt.Sprintf("U,%s,%s,%s,%d", MacTok(m), IPTok(x), tok(), t(1))}
+			}
+			return []string{fmt.Sprintf("O,%s,%s,%s", MacTok(m), IPTok(x), tok()),
+				fmt.Sprintf("U,%s,%s,%s,%d", MacTok(m), IPTok(x), tok(), t(1))}
+		}
+		ops = append(ops, announce()...)
+		for i := 0; i < g.Rng.Intn(3); i++ { // identical repeats before delivery
+			ops = append(ops, announce()...)
+		}
+		switch g.Rng.Intn(6) { // delivery
+		case 0:
+			if src >= 5 {
+				ops = append(ops, dhcpFrame()...)
+			} else {
+				ops = append(ops, frame()...)
+			}
+		case 1:
+			ops = append(ops, fmt.Sprintf("P,%d", t(301)))
+			ops = append(ops, frame()...)
+		default:
+			ops = append(ops, frame()...)
+		}
+		for i := 0; i < 1+g.Rng.Intn(2); i++ { // identical repeats after delivery: nothing is owed, the next frames are quiet
+			ops = append(ops, announce()...)
+			if g.Rng.Chance(70) {
+				ops = append(ops, frame()...)
+			}
+			if src >= 5 && g.Rng.Chance(30) {
+				ops = append(ops, dhcpFrame()...)
+			}
+		}
+		switch g.Rng.Intn(8) {
+		case 0:
+			ops = append(ops, RxTok(other, "4", u.IP4s[2+g.Rng.Intn(3)], nil, 0, t(1)), "N")
+		case 1:
+			ops = append(ops, fmt.Sprintf("P,%d", t(int64(g.Rng.Pick(100, 301)))))
+		case 2: // the same entry through another source
+			ops = append(ops, fmt.Sprintf("M,%d,%s,%s", g.Rng.Intn(5), IPTok(x), tok()))
+		}
+		mutate()
+	}
+	ops = append(ops, frame()...)
+	return ops
 }
